@@ -56,6 +56,12 @@ def run_unit(args):
     case = registry.cases_for(prop)[idx]
     T = targets()
     t0 = time.time()
+    if tier == "thorough":
+        os.environ["PYVC_RECHECK"] = "1"
+    from pyvc import solve as _solve
+
+    for k_ in ("unsat", "unknown", "sat"):
+        _solve.RECHECK[k_] = 0
     out = {"case": case.name, "function": "%s.%s" % (case.module, case.function), "obligations": [], "conformance": None, "standin": None, "error": None}
     if getattr(case, "is_bounded", False):
         rng = random.Random(seed * 7919 + idx)
@@ -81,6 +87,7 @@ def run_unit(args):
         obs = contract.verify_case(T, case, timeout_ms=timeout, want=want, exclude=exclude)
         out["obligations"] = [o.to_json() for o in obs]
         out["used"] = sorted(getattr(case, "_used", []))
+        out["recheck"] = dict(_solve.RECHECK)
     except Exception:  # noqa: BLE001
         out["error"] = traceback.format_exc()
     # conformance of the model against the real library on this case's grid
@@ -347,6 +354,7 @@ def check_property(prop, tier="quick", seed=0):
             "solver_seconds": round(sum(o["seconds"] for o in all_obs), 3),
             "explore_seconds": round(sum(max([o["explore_seconds"] for o in r["obligations"]] or [0]) for r in results), 3),
             "back_ends": solvers,
+            "cvc5_recheck": {k_: sum((r.get("recheck") or {}).get(k_, 0) for r in results) for k_ in ("unsat", "unknown", "sat")},
             "undecided": [{"name": o["name"], "detail": o["detail"]} for o in undecided],
             "bounded": spec.get("bounded", []),
             "bounded_standin_evaluations": standin_cases,
